@@ -642,6 +642,10 @@ CHAIN = {
 def session_part(c, pid, q):
     """Session.tla: the same token objects validated repeatedly (other instants, other hooks)."""
     fams = []
+    if pid in ("C01", "C05", "C20"):
+        fams.append(("MC_Session_L.cfg", dict(), "ProofsCached",
+                     "loader family: 3 checks of the same token, each with a loader that holds the delegations or has lost them, with and "
+                     "without the identity hook"))
     if pid in ("C04", "C05", "C20"):
         fams.append(("MC_Session_T.cfg", dict(Links="ST_Links1" if (pid == "C20" and q) else "ST_Links"), "ChainCached",
                      "time family: bounds of invocation and <=2 links free over {none, 2, 4}; 3 checks of the same token objects at "
@@ -658,7 +662,7 @@ def session_part(c, pid, q):
              label="Session: every check returns what a fresh token would return (Historyless)")
         c.replay("session:" + pid, cp, rule="Session.tla " + rule + "; non-trivial = the property forbids / demands the outcome")
         os.remove(cp)
-        c.mc("MC_Session", cfg, dict(Deviations='{"%s"}' % dev, Emit="", **dict(consts, **({"Links": "ST_Links1"} if "Links" in consts else {"MaxChecks": 2}))),
+        c.mc("MC_Session", cfg, dict(Deviations='{"%s"}' % dev, Emit="", **dict(consts, **({"Links": "ST_Links1"} if "Links" in consts else ({"MaxChecks": 2} if "MaxChecks" in consts else {})))),
              expect_violation=["Historyless"], label="sensitivity: memo state on the token (%s) breaks Historyless" % dev)
 
 
